@@ -334,7 +334,12 @@ def run_check(prop, tier, seed, replay=None):
     for f in known.get("findings", []):
         if f["property"] != prop:
             continue
-        still = mod.replay_finding(ctx, f)
+        try:
+            still = mod.replay_finding(ctx, f)
+        except Exception as e:  # noqa
+            # the recorded witness can no longer be driven: not a reproduction, and the correspondence is not intact either
+            still = False
+            broken.append("replay of known finding %s raised %s: %s" % (f["id"], type(e).__name__, str(e)[:200]))
         if still:
             kf_lines.append(f"KNOWN-FINDING: property={prop} {f['id']} {f['what']}")
     listed = {f["id"] for f in known.get("findings", []) if f["property"] == prop}
